@@ -158,6 +158,29 @@ func specCheck(e *vlib.Env, w uint32, r *vlib.Rand) {
 			bad("fhax-without-previous", "IsFirstHopAfterXover reported at the first hop or first segment")
 		}
 	}
+	// advancing from ANY current hop that has a successor lands on the next hop and on the segment
+	// containing it, whatever the info pointer was before (theorem incPath_spec has no
+	// consistency hypothesis either)
+	if ch+1 < tot {
+		nb := mkRaw(w, r, ninf, tot)
+		var c scion.Raw
+		if c.DecodeFromBytes(nb) == nil {
+			if err := c.IncPath(); err != nil {
+				bad("inc-any", "IncPath failed although a next hop exists: "+err.Error())
+			} else {
+				nseg, st := 0, 0
+				for ch+1 >= st+s[nseg] {
+					st += s[nseg]
+					nseg++
+				}
+				raw32 := binary.BigEndian.Uint32(c.Raw[:4])
+				if int(c.PathMeta.CurrHF) != ch+1 || int(c.PathMeta.CurrINF) != nseg ||
+					int(raw32>>30) != nseg || int(raw32>>24)&63 != ch+1 {
+					bad("inc-any", "IncPath did not land on the next hop and its segment (struct or raw bytes)")
+				}
+			}
+		}
+	}
 	if ch >= tot || ci >= ninf {
 		return // pointers out of range: the remaining clauses are about positions on the path
 	}
